@@ -776,7 +776,7 @@ func (c *CharSet) addNamedASCII(name string, negate bool) bool {
 	case "cntrl":
 		rs = []SingleRange{{0, 0x1f}, {0x7f, 0x7f}}
 	case "digit":
-		c.addDigit(false, negate)
+		rs = []SingleRange{{'0', '9'}}
 	case "graph":
 		rs = []SingleRange{{'!', '~'}}
 	case "lower":
@@ -785,8 +785,8 @@ func (c *CharSet) addNamedASCII(name string, negate bool) bool {
 		rs = []SingleRange{{' ', '~'}}
 	case "punct": //[!-/:-@[-`{-~]
 		rs = []SingleRange{{'!', '/'}, {':', '@'}, {'[', '`'}, {'{', '~'}}
-	case "space":
-		c.addSpace(true, false, negate)
+	case "space": //[\t\n\v\f\r ]
+		rs = []SingleRange{{'\t', '\r'}, {' ', ' '}}
 	case "upper":
 		rs = []SingleRange{{'A', 'Z'}}
 	case "word":
